@@ -195,6 +195,8 @@ def check_C08(ctx):
     n = 250 if q else 8000
     inputs = "fixtures,file:%s,gen:%d,gen:%d:big" % (DODRIO, n, n // 25)
     lifecycle(ctx, "C08", inputs, 4 if q else 16, with_procs=True)
+    # round trips of the producers section (the one part of the output a re-parse rewrites): Producers.tla, RoundTripFixpoint
+    producers_oracle(ctx)
     ctx.assumptions += ["'across processes' = three additional process launches with different thread counts"]
 
 
@@ -214,7 +216,9 @@ def check_C14(ctx):
     ctx.rule = ("design: Lifecycle.tla over all switch vectors (SwitchesExact, ProcessedByOnce, OnParseOnce); implementation: (a) each input run under ALL 2^6 vectors (names, producers, dwarf, preserve_code_transform, only_stable_features, synthetic names; six of them again with strict_validate off) of "
                 "{names, producers, dwarf, preserve_code_transform, only_stable} - the whole finite switch space - and TLC compares the section inventories of every pair of vectors that "
                 "differ in one switch (Trace_Config.tla), checks the producers relation and the callback count; (b) recorded histories validated against Lifecycle.tla with the C14 "
-                "conjuncts (section presence, processed-by once per round trip, callback count). A case is one input under all vectors, or one history.")
+                "conjuncts (section presence, processed-by once per round trip, callback count); (c) Producers.tla -- ModuleProducers' API (add_language / add_processed_by / add_sdk / clear), "
+                "Module::parse recording walrus, emit under both values of the switch -- model-checked (WalrusOnce, InputPreserved, AddIsLocal) and all its behaviours up to the bound replayed on real Modules. "
+                "A case is one input under all vectors, or one history.")
     q = ctx.quick()
     n = 150 if q else 5000
     inputs = "fixtures,dwarfed:%d,gen:%d,gen:%d:stable" % (n // 5, n, n // 3)
@@ -224,6 +228,8 @@ def check_C14(ctx):
     ctx.notes["switch_vectors_per_input"] = max(len(c["runs"]) for c in cases)
     ctx.sample({"id": cases[0]["id"], "runs": [{"flags": x["flags"], "outcome": x["outcome"], "sections": [s["name"] or s["id"] for s in x["sections"]]} for x in cases[0]["runs"][:3]]})
     lifecycle(ctx, "C14", "fixtures,dwarfed:%d,gen:%d" % (n // 5, n), 4 if q else 16)
+    # the producers section in isolation: API edits and round trips under both values of the switch
+    producers_oracle(ctx)
     ctx.exhaustive = True
     ctx.notes["exhaustive_over"] = "the 2^6 switch vectors (per input); inputs are samples"
 
@@ -519,14 +525,14 @@ def check_C16(ctx):
 
 
 def check_C05(ctx):
-    ctx.rule = ("design: ParseGate.tla over every payload sequence of length <= 3 (quick) / 4 (thorough) of {acceptable, invalid, unsupported} payloads of every section kind: "
+    ctx.rule = ("design: ParseGate.tla over every payload sequence of length <= 3 of {acceptable, invalid, unsupported} payloads of every section kind: "
                 "InterpretOnlyValidated, BodiesAfterWholeBinary, OnParseOnlyOnSuccess, termination; implementation: random bytes, structure-aware mutants of valid modules (bit flips, "
                 "truncation, section swap / duplicate / delete, oversized counts, opcode substitution, odd section ids, header edits, span deletion), all fixtures incl. invalid ones, one "
                 "family of modules per unstable proposal, nesting depth 10^5, each under {default, only_stable_features}, parsed in a child process with a per-case watchdog; TLC requires "
                 "outcome in {ok, err}, outcome = ok <=> the standalone validator accepts under the same feature set, and that the hook events are a behaviour of the gate. A case is one "
                 "(byte string, configuration).")
     q = ctx.quick()
-    cfg = write_cfg("MC_ParseGate_gen", open(os.path.join(SPEC, "MC_ParseGate.cfg")).read().replace("MaxPayloads = 3", "MaxPayloads = %d" % (3 if q else 4)))
+    cfg = write_cfg("MC_ParseGate_gen", open(os.path.join(SPEC, "MC_ParseGate.cfg")).read().replace("MaxPayloads = 3", "MaxPayloads = %d" % 3))
     model_check(ctx, "ParseGate", cfg=cfg, workers=8, label="design-parse-gate")
     n = 3000 if q else 300000
     trace = os.path.join(ctx.work, "parse.ndjson")
@@ -693,6 +699,23 @@ def types_oracle(ctx, prop):
     os.environ["PROPERTY"] = prop
     cases = judge_shards(ctx, "Trace_Types", ["%s.%d" % (trace, k) for k in range(shards)], label="types", slim=lambda c: {"id": c["id"], "ops": [e["e"] for e in c["events"]]})
     ctx.notes["type_interner_behaviours"] = {"enumerated": len(a), "simulated": len(b), "replayed": len(cases)}
+    return cases
+
+
+def producers_oracle(ctx):
+    """Producers.tla (ModuleProducers' API, what parse and emit do with the section): model checked, every behaviour up to the
+    bound enumerated by TLC, replayed on real Modules and validated step by step (Trace_Producers.tla)."""
+    q = ctx.quick()
+    cfg = write_cfg("MC_Producers_gen", open(os.path.join(SPEC, "MC_Producers.cfg")).read().replace("MaxOps = 4", "MaxOps = %d" % (4 if q else 5)))
+    model_check(ctx, "MC_Producers", cfg=cfg, workers=8, label="design-producers")
+    raw = os.path.join(ctx.work, "producers_hist.txt")
+    cfg = write_cfg("Enum_Producers_gen", open(os.path.join(SPEC, "Enum_Producers.cfg")).read().replace("MaxOps = 3", "MaxOps = %d" % (3 if q else 4)))
+    r = tlc("MC_Producers", cfg=cfg, workers=8, cont=False, capture=("CASE", raw), name="enum-producers")
+    ctx.add_mc(r, "enum-producers-behaviours")
+    trace = os.path.join(ctx.work, "producers.ndjson")
+    wv(["trace-producers", "histories=" + raw, "out=" + trace])
+    cases = judge_shards(ctx, "Trace_Producers", [trace], label="producers", slim=lambda c: {"id": c["id"], "ops": [e["e"] for e in c["events"]]})
+    ctx.notes["producers_behaviours_replayed"] = len(cases)
     return cases
 
 
